@@ -148,10 +148,12 @@ func (t *Transcoder) registerRules(rules []*annotations.HttpRule) error {
 		if selector == "" {
 			return errors.New("rule missing selector")
 		}
+		var wildcard bool
 		if i := strings.Index(selector, "*"); i >= 0 {
 			if i != len(selector)-1 {
 				return fmt.Errorf("wildcard selector %q must be at the end", rule.GetSelector())
 			}
+			wildcard = true
 			selector = selector[:len(selector)-1]
 			if len(selector) > 0 && !strings.HasSuffix(selector, ".") {
 				return fmt.Errorf("wildcard selector %q must be whole component", rule.GetSelector())
@@ -159,7 +161,11 @@ func (t *Transcoder) registerRules(rules []*annotations.HttpRule) error {
 		}
 		for _, methodConf := range t.methods {
 			methodName := string(methodConf.descriptor.FullName())
-			if !strings.HasPrefix(methodName, selector) {
+			if wildcard && !strings.HasPrefix(methodName, selector) {
+				continue
+			}
+			if !wildcard && methodName != selector {
+				// without a wildcard, the selector must name the method exactly
 				continue
 			}
 			methodRules[methodConf] = append(methodRules[methodConf], rule)
